@@ -511,6 +511,12 @@ bool pass_in_memory(Type *ty) {
   return ty->size > 16 || has_unaligned_field(ty, 0);
 }
 
+// An aggregate without any bytes (a GNU extension) occupies neither a
+// register nor stack space as an argument, and nothing is returned for it.
+static bool is_empty_aggregate(Type *ty) {
+  return (ty->kind == TY_STRUCT || ty->kind == TY_UNION) && ty->size == 0;
+}
+
 static void push_struct(Type *ty) {
   int sz = align_to(ty->size, 8);
   println("  sub $%d, %%rsp", sz);
@@ -602,7 +608,7 @@ static int push_args(Node *node) {
     switch (ty->kind) {
     case TY_STRUCT:
     case TY_UNION:
-      if (pass_in_memory(ty)) {
+      if (pass_in_memory(ty) || is_empty_aggregate(ty)) {
         arg->pass_by_stack = true;
         stack = stack_arg_slots(arg, stack);
       } else {
@@ -666,6 +672,9 @@ static void copy_ret_buffer(Obj *var) {
   Type *ty = var->ty;
   int gp = 0, fp = 0;
 
+  if (is_empty_aggregate(ty))
+    return;
+
   if (has_flonum1(ty)) {
     assert(ty->size == 4 || 8 <= ty->size);
     if (ty->size == 4)
@@ -702,6 +711,9 @@ static void copy_ret_buffer(Obj *var) {
 static void copy_struct_reg(void) {
   Type *ty = current_fn->ty->return_ty;
   int gp = 0, fp = 0;
+
+  if (is_empty_aggregate(ty))
+    return;
 
   println("  mov %%rax, %%rdi");
 
@@ -1493,7 +1505,7 @@ static void assign_lvar_offsets(Obj *prog) {
       switch (ty->kind) {
       case TY_STRUCT:
       case TY_UNION:
-        if (!pass_in_memory(ty)) {
+        if (!pass_in_memory(ty) && !is_empty_aggregate(ty)) {
           bool two = ty->size > 8;
           bool fp1 = has_flonum(ty, 0, 8, 0);
           bool fp2 = two && has_flonum(ty, 8, 16, 0);
